@@ -116,6 +116,7 @@ type Ensures struct {
 	Tag    string
 	Expr   *Sx
 	Define bool // abstraction definition: assumed at call sites, never an obligation (listed as an assumption)
+	Check  bool // `check[tag]`: an obligation at every return that is never assumed, neither by callers nor by later clauses
 }
 
 type LoopSpec struct {
@@ -460,7 +461,7 @@ func (cs *Contracts) parseFile(path, text string) error {
 				}
 				continue
 			}
-			if strings.HasPrefix(kw, "ensures") {
+			if strings.HasPrefix(kw, "ensures") || strings.HasPrefix(kw, "check[") {
 				tag := ""
 				if k := strings.Index(kw, "["); k >= 0 {
 					tag = strings.TrimSuffix(kw[k+1:], "]")
@@ -476,7 +477,7 @@ func (cs *Contracts) parseFile(path, text string) error {
 					} else if n > 0 {
 						t = fmt.Sprintf("%s.%d", tag, n)
 					}
-					cur.Ensures = append(cur.Ensures, Ensures{Tag: t, Expr: e})
+					cur.Ensures = append(cur.Ensures, Ensures{Tag: t, Expr: e, Check: strings.HasPrefix(kw, "check[")})
 				}
 				continue
 			}
